@@ -4,7 +4,7 @@
    (NOT the alignment the block was obtained with: the known finding of C14 lives exactly here), and the
    two debug assertions of from_raw_parts read the header through the rebuilt handle. *)
 From Coq Require Import ZArith List String Bool Lia.
-From MV Require Import Ast Eval Scalar Machine Equiv Prims EquivTac.
+From MV Require Import Ast Eval Scalar Machine EquivDefs Prims EquivTac.
 From MV.Gen Require Import AstGen.
 Import ListNotations.
 Open Scope string_scope.
